@@ -431,7 +431,7 @@ def rule_enc(cx, tier):
     alts = {op: reader_alternatives(t) for op, t in grammar.items()}
     r.analysed = {"decoder_arms": len(grammar),
                   "layouts_with_var_int": sorted(op for op, t in grammar.items() if any(x[0] in ("V", "VB") for x in t))}
-    r.floor("decoder arms", len(grammar), 85)
+    r.floor("decoder arms", len(grammar), 63)
     w = Writer(cx)
     n_sites = 0
     emitted_ops = set()
@@ -488,7 +488,7 @@ def rule_enc(cx, tier):
                           "read": sorted(_fmt(a) for a in alts[op])[:4]}, limit=14)
     r.analysed["emission_sites"] = n_sites
     r.analysed["distinct_ops_emitted"] = len(emitted_ops)
-    r.floor("opcode emission sites", n_sites, 150)
+    r.floor("opcode emission sites", n_sites, 112)
     return r
 
 
@@ -538,7 +538,7 @@ def rule_handlers(cx, tier):
                 emitted |= w.op_variants(fn, c.args[1])
     # raw deferred ops: `vec![Capture as u8, ..]`
     r.analysed = {"ops_emitted": len(emitted), "decoder_arms": len(grammar)}
-    r.floor("distinct opcodes emitted", len(emitted), 70)
+    r.floor("distinct opcodes emitted", len(emitted), 52)
     for op in sorted(emitted):
         r.instances += 1
         r.nontrivial += 1
